@@ -71,6 +71,7 @@ def histories(tier: str) -> List[Tuple[str, ...]]:
         ("{0}", "{0, 'a', 1.5, b'x', None, (0,)}"), ("{0, 'a', 1.5, b'x', None, (0,)}", "{'a'}", "{0}"),
         ("{1: 0}", "{1: 0, 2: 'a', 3: 1.5, 4: b'x', 5: None, 6: (0,)}"), ("defaultdict(int, {1: 0})", "defaultdict(int, {1: 0, 2: 'a', 3: 1.5, 4: b'x', 5: None, 6: (0,)})"),
         ("[0]", "0", "{'a': 0}", "'a'", "(0, 'a')"),
+        ("[0] * 1200 + ['a']",), ("[0] * 1200 + [None, 'a']", "[0]"), ("set(range(1500)) | {'a', None}",),
     ]
     if tier == "thorough":
         hs += [(e,) for e in V.depth2(quick=True)]
